@@ -138,7 +138,7 @@ def extra_c17(tier, seed, workdir, sh, GH, GM):
 PROPS["C14"] = dict(
     module="Grenad.Props.C14",
     extra=extra_c14,
-    streams={"varint": (96, 2880)},
+    streams={"varint": (96, 2880), "edge": (64, 640)},
     rules={},
     exhaustive_in="thorough",
     assumptions=["u32 arithmetic of varint.rs is modelled on Nat with explicit % and / (checked against the real functions)"],
@@ -147,13 +147,14 @@ PROPS["C14"] = dict(
 PROPS["C13"] = dict(
     module="Grenad.Props.C13",
     streams={"open": (256, 7680), "trunc": (64, 960), "truncall": (0, 480)},
-    rules={"ops": ["open"]},
+    rules={"ops": ["open", "openio", "!openfault"]},
+    min_features_streams=["open", "trunc"],
     assumptions=["the source is an in-memory Cursor (seek before the start fails, reads are exact)"],
 )
 
 PROPS["C01"] = dict(
     module="Grenad.Props.C01",
-    streams={"write": (640, 19200)},
+    streams={"write": (640, 19200), "edge": (64, 640)},
     rules={"ops": ["ins", "finish", "file", "c", "interop"], "finish_must_succeed": True},
 )
 
@@ -163,13 +164,13 @@ PROPS["C03"] = dict(
     rules={"ops": ["c", "file"], "fingerprint": True},
 )
 
-PROPS["C02"] = dict(module="Grenad.Props.C02", streams={"seek": (640, 19200)}, rules={"ops": ["c", "file"]})
-PROPS["C04"] = dict(module="Grenad.Props.C04", streams={"iter": (640, 19200)}, rules={"ops": ["range", "file"]})
-PROPS["C05"] = dict(module="Grenad.Props.C05", streams={"iter": (640, 19200)}, rules={"ops": ["prefix", "file"]})
+PROPS["C02"] = dict(module="Grenad.Props.C02", streams={"seek": (640, 19200), "edge": (64, 640)}, rules={"ops": ["c", "file"]})
+PROPS["C04"] = dict(module="Grenad.Props.C04", streams={"iter": (640, 19200), "edge": (64, 640)}, rules={"ops": ["range", "file"]})
+PROPS["C05"] = dict(module="Grenad.Props.C05", streams={"iter": (640, 19200), "edge": (64, 640)}, rules={"ops": ["prefix", "file"]})
 PROPS["C06"] = dict(module="Grenad.Props.C06", streams={"merge": (1280, 38400)}, rules={"ops": ["merge", "mergew"], "calls": True})
 PROPS["C07"] = dict(module="Grenad.Props.C07", streams={"sorter": (960, 28800)}, rules={"ops": ["sfinish"], "calls": True})
 PROPS["C08"] = dict(module="Grenad.Props.C08", streams={"sorter": (960, 28800)}, rules={"ops": ["sins", "snew"], "sorter_bounds": True})
-PROPS["C09"] = dict(extra=extra_c09, module="Grenad.Props.C09", streams={"write": (640, 19200)}, rules={"ops": ["finish", "interop", "file"], "blocks": True, "finish_must_succeed": True})
+PROPS["C09"] = dict(extra=extra_c09, module="Grenad.Props.C09", streams={"write": (640, 19200), "edge": (64, 640)}, rules={"ops": ["finish", "interop", "file"], "blocks": True, "finish_must_succeed": True})
 PROPS["C10"] = dict(module="Grenad.Props.C10", streams={"v1": (480, 14400)}, rules={"ops": ["file", "c", "range", "prefix"]})
 PROPS["C11"] = dict(module="Grenad.Props.C11", streams={"wio": (640, 19200), "rio": (480, 14400), "sorterio": (480, 14400)},
                     rules={"ops": ["ins", "finish", "sinkstate", "c", "range", "prefix", "file", "sfinish", "sins", "snew"]})
